@@ -48,11 +48,12 @@ type incCase struct {
 	Initial      []int // value per id (0 = absent)
 	Backpressure bool
 	UpdatesOnly  bool
+	NoDup        bool // the collection is configured with WithNoDuplicates
 	Steps        []step
 }
 
 func (c incCase) String() string {
-	return fmt.Sprintf("table=%08b initial=%v backpressure=%v updatesOnly=%v readMask=%q steps=%v", c.Table, c.Initial, c.Backpressure, c.UpdatesOnly, c.Mask, c.Steps)
+	return fmt.Sprintf("table=%08b initial=%v backpressure=%v updatesOnly=%v noDuplicates=%v readMask=%q steps=%v", c.Table, c.Initial, c.Backpressure, c.UpdatesOnly, c.NoDup, c.Mask, c.Steps)
 }
 
 func runInclude(c incCase) (nt string, err error) {
@@ -61,6 +62,11 @@ func runInclude(c incCase) (nt string, err error) {
 		if v > 0 {
 			cfg.Initial[string("ab"[i])] = val(int32(v))
 		}
+	}
+	if c.NoDup {
+		// an equivalence suppresses updates that leave the (masked) value as the subscriber holds it - but never one
+		// that makes the item enter or leave the filtered view
+		cfg.Equivalence = "nodup"
 	}
 	p := tablePredicate(c.Table)
 	sub := rlib.SubSpec{Backpressure: c.Backpressure, UpdatesOnly: c.UpdatesOnly, Include: p, IncludeName: fmt.Sprintf("table %08b", c.Table)}
@@ -130,6 +136,7 @@ func TestIncludeRandom(t *testing.T) {
 			UpdatesOnly:  rapid.IntRange(0, 3).Draw(t, "updatesOnly") == 0,
 		}
 		c.Mask = rapid.SampledFrom([][]string{nil, nil, {"d"}, {"c"}, {}}).Draw(t, "mask")
+		c.NoDup = rapid.IntRange(0, 2).Draw(t, "noDuplicates") == 0
 		c.Steps = drawSteps(t, rapid.IntRange(1, 12).Draw(t, "n"))
 		nt, err := runInclude(c)
 		if err != nil {
